@@ -120,6 +120,30 @@ class PyBackend(object):
         l = self.plist(ws)
         return self.stabilizer.StabilizerState(gs=l.gs, ps=l.ps, r=r)
 
+    def relayout(self, L, layout):
+        """same content, other memory layout of gs / ps (what slicing, transposition or .inverse() hand to users):
+        "rev" = reversed view of a reversed copy, "step" = every second row of an interleaved array,
+        "fortran" = column-major, "cols" = the left block of a wider array"""
+        gs, ps = L.gs, L.ps
+        if layout == "rev":
+            gs2, ps2 = gs[::-1].copy()[::-1], ps[::-1].copy()[::-1]
+        elif layout == "step":
+            wide = numpy.ones((2 * gs.shape[0], gs.shape[1]), dtype=gs.dtype)
+            wide[::2] = gs
+            pw = numpy.ones(2 * ps.shape[0], dtype=ps.dtype)
+            pw[::2] = ps
+            gs2, ps2 = wide[::2], pw[::2]
+        elif layout == "fortran":
+            gs2, ps2 = numpy.asfortranarray(gs), ps
+        elif layout == "cols":
+            wide = numpy.ones((gs.shape[0], gs.shape[1] + 3), dtype=gs.dtype)
+            wide[:, :gs.shape[1]] = gs
+            gs2, ps2 = wide[:, :gs.shape[1]], ps
+        else:
+            raise ValueError(layout)
+        L.gs, L.ps = gs2, ps2
+        return L
+
     # ---- projections
     def p_pauli(self, P):
         return bits_wire(self.tolist(P.g), P.p)
@@ -225,6 +249,26 @@ class TorchBackend(object):
         l = self.plist(ws)
         return self.stabilizer.StabilizerState(gs=l.gs, ps=l.ps, r=r)
 
+    def relayout(self, L, layout):
+        torch = self.torch
+        gs, ps = L.gs, L.ps
+        if layout in ("step", "rev"):
+            wide = torch.ones((2 * gs.shape[0], gs.shape[1]), dtype=gs.dtype)
+            wide[::2] = gs
+            pw = torch.ones(2 * ps.shape[0], dtype=ps.dtype)
+            pw[::2] = ps
+            gs2, ps2 = wide[::2], pw[::2]
+        elif layout == "fortran":
+            gs2, ps2 = gs.t().contiguous().t(), ps
+        elif layout == "cols":
+            wide = torch.ones((gs.shape[0], gs.shape[1] + 3), dtype=gs.dtype)
+            wide[:, :gs.shape[1]] = gs
+            gs2, ps2 = wide[:, :gs.shape[1]], ps
+        else:
+            raise ValueError(layout)
+        L.gs, L.ps = gs2, ps2
+        return L
+
     def p_pauli(self, P):
         return bits_wire(self.tolist(P.g), P.p)
 
@@ -279,6 +323,30 @@ def dyadic(x):
     if abs(x * 4096 - q) > 1e-5 * 4096:
         return None
     e = 12
+    while e > 0 and q % 2 == 0:
+        q //= 2
+        e -= 1
+    return [q, e]
+
+
+def dyadic_fine(x, emax=24):
+    """double-precision variant for pyclifford results: x == num / 2**e exactly (up to 1e-6 units of 2^-emax),
+    e <= emax, |num| < 2^30 (used where a deviation of 1e-6 matters: scalars next to the units 1, -1, i, -i;
+    couplings below a pruning tolerance)"""
+    if hasattr(x, "item"):
+        x = x.item()
+    if isinstance(x, (bool, int)):
+        return [int(x), 0] if abs(int(x)) < 64 else None
+    if isinstance(x, complex):
+        if abs(x.imag) > 1e-12:
+            return None
+        x = x.real
+    if not isinstance(x, float) or x != x or abs(x) * 2 ** emax >= 2 ** 30:
+        return None
+    q = round(x * 2 ** emax)
+    if abs(x * 2 ** emax - q) > 1e-6:
+        return None
+    e = emax
     while e > 0 and q % 2 == 0:
         q //= 2
         e -= 1
